@@ -294,6 +294,9 @@ macro_rules! impl_div_for_primitive {
 
             fn div(self, denom: BigDecimal) -> BigDecimal {
                 if self.is_one() {
+                    if denom.is_zero() {
+                        panic!("Division by zero");
+                    }
                     denom.inverse()
                 } else {
                     BigDecimal::from(self) / denom
@@ -390,6 +393,9 @@ macro_rules! impl_div_for_primitive {
                 if !self.is_normal() {
                     BigDecimal::zero()
                 } else if self.is_one() {
+                    if denom.is_zero() {
+                        panic!("Division by zero");
+                    }
                     denom.inverse()
                 } else {
                     BigDecimal::try_from(self).unwrap() / denom
@@ -404,6 +410,9 @@ macro_rules! impl_div_for_primitive {
                 if !self.is_normal() {
                     BigDecimal::zero()
                 } else if self.is_one() {
+                    if denom.is_zero() {
+                        panic!("Division by zero");
+                    }
                     denom.inverse()
                 } else {
                     BigDecimal::try_from(self).unwrap() / denom
